@@ -122,7 +122,7 @@ def run(ck: Check):
     ck.broken = [b for b in ck.broken if b not in foreign]
     for b in foreign:
         ck.notes.append(f"ignored (table not imported by C13): {b.get('what')}")
-    ck.build_driver()
+    ck.build_driver(["Strs"])
 
     cl = corpus_lines()
     if cl:
